@@ -9,7 +9,6 @@ Three output streams per case line (see lean/StorageModel/Driver/C01.lean, harne
 (implementation = model, including the accept/reject decision) is checked.
 """
 import os
-import time
 
 from . import common
 
@@ -17,8 +16,8 @@ MODULE = "StorageModel.Properties.C01"
 THEOREMS = [
     "transform_total", "eval_refines_sat", "seek_eq_scan", "query_shortcut_free", "subquery_count_exact",
     "null_rules", "engine_null_rules", "null_literal_rule", "not_forms_negate",
-    "stacked_eq_flatMap", "world_refines_spec", "query_exact", "query_exact_no_subquery",
-    "subquery_tail_violates", "query_exact_full_fails",
+    "stacked_eq_flatMap", "resolve_refines_path", "world_refines_spec", "query_exact", "query_exact_short_names",
+    "subquery_tail_violates", "tail_drop_violates", "query_exact_full_fails",
 ]
 
 
@@ -113,7 +112,7 @@ RULE = ("non-trivial = well-typed filter accepted by ast.Parse whose answer sepa
         "those. m cases: 17-symbol in-memory symbol table (string/int/float/bool/datetime/any scalars, 8 set symbols "
         "with seekable and plain cursors), 6 rows per dataset drawn from boundary pools with 25% null and 4% values of "
         "another stored type; b cases: two linked bbolt stores (string/int32/int64/float/bool/time/nullable fields, "
-        "string set, fk, fk/link sets, tag map, dotted symbols up to 3 segments, sub-queries with skip/limit); filters "
+        "string set, fk, fk/link sets, tag map, dotted symbols up to 3 (one case in six: 4) segments, sub-queries with skip/limit, 0-6 + 0-4 entities, 25% null fields, 5% dangling references); filters "
         "type-directed (1 in 6 atoms ignores the typing rules), nesting depth <= 3 (quick) / 5 (thorough), one third "
         "single atoms, mixed and/or always parenthesised; plus the enumerated operator x left-type x literal-type x "
         "left-operand-shape product of single atoms")
@@ -183,8 +182,11 @@ def run(ctx, replay_cases=None):
                 if c[:1] == "m":
                     if "0" in b and "1" in b:
                         keys.add(shape)
-                elif b not in ("", "-") and not b.startswith("*"):
-                    keys.add(shape)
+                else:
+                    nrows = next((int(x[2:]) for x in (s or "").split(" ") if x.startswith("n=")), 0)
+                    nids = 0 if b in ("", "-") else b.count(",") + 1
+                    if 0 < nids < nrows:
+                        keys.add(shape)
             if not ok_:
                 spec_bad.append((c, a, m, s))
                 continue
@@ -202,7 +204,6 @@ def run(ctx, replay_cases=None):
         "impl_vs_spec_disagreements": len(spec_bad),
         "impl_vs_model_disagreements": len(corr_bad) + len([b for b in spec_bad if b[1] != b[2]]),
     })
-    gh = os.path.join(ctx.run_dir if hasattr(ctx, "run_dir") else "", "c01-hist.txt")
     ctx.obligation("correspondence: implementation output = model output on every generated case (accept/reject, typed-tree shape, answers with and without the seek shortcut)",
                    not corr_bad and not [b for b in spec_bad if b[1] != b[2]],
                    f"{len(corr_bad) + len([b for b in spec_bad if b[1] != b[2]])} disagreement(s)")
